@@ -104,6 +104,15 @@ def discharge_smt2(txt, z3_ms=10000, cvc5_s=30, use_cvc5=True):
         if r == z3.unsat:
             return dict(status="proved", backend="z3", time=time.time() - t0, detail="")
     if quantified:
+        # E-matching only (model-based instantiation off): fast and stable for proofs; short budget first
+        r, _ = attempt(fs, min(4000, z3_ms), **{"smt.mbqi": False})
+        if r == z3.unsat:
+            return dict(status="proved", backend="z3", time=time.time() - t0, detail="")
+        # second opinion early: cvc5 decides many of the queries on which z3's instantiation heuristics wander
+        if use_cvc5 and os.path.exists(CVC5):
+            res = run_cvc5(txt, max(5, z3_ms // 1000))
+            if res == "unsat":
+                return dict(status="proved", backend="cvc5", time=time.time() - t0, detail="")
         r, _ = attempt(fs, z3_ms, **{"smt.mbqi": False})
         if r == z3.unsat:
             return dict(status="proved", backend="z3", time=time.time() - t0, detail="")
@@ -117,7 +126,7 @@ def discharge_smt2(txt, z3_ms=10000, cvc5_s=30, use_cvc5=True):
             det = ""
         return dict(status="refuted", backend="z3", time=time.time() - t0, detail=det)
     detail = "z3: " + s.reason_unknown()
-    if use_cvc5 and os.path.exists(CVC5):
+    if use_cvc5 and os.path.exists(CVC5) and not quantified:
         res = run_cvc5(txt, cvc5_s)
         if res == "unsat":
             return dict(status="proved", backend="cvc5", time=time.time() - t0, detail="")
